@@ -157,7 +157,9 @@ func Observe(name string, v uint64) {
 
 // ObserveBytes records bytes for the differential self-check.
 func ObserveBytes(name string, b []byte) {
-	Observed = append(Observed, fmt.Sprintf("%s=x%s", name, hex.EncodeToString(b)))
+	for i, x := range b {
+		Observed = append(Observed, fmt.Sprintf("%s[%d]=%d", name, i, x))
+	}
 }
 
 // Try runs f and reports whether it panicked (a VERIF-* panic is passed on).
@@ -182,6 +184,15 @@ func MapOrderDefault() {}
 
 // Unwind sets the per-activation loop bound used by the engine.
 func Unwind(n int) {}
+
+// Abstract replaces the named function (ssa full name) by its documented contract for the rest of the path (engine only).
+func Abstract(name string) {}
+
+// MakeBound sets the largest symbolic allocation length the engine follows (longer ones are cut and counted).
+func MakeBound(n int) {}
+
+// GoInline lets the engine run `go f()` statements as plain calls (only for bodies whose effects are order-independent).
+func GoInline() {}
 
 // Fresh returns a string distinct from every other Fresh string.
 func Fresh(prefix string) string {
